@@ -503,13 +503,33 @@ def chain_id_form(f, cid, env, listvar):
         if isinstance(a1, ast.ListComp) and len(a1.generators) == 1 and not a1.generators[0].ifs and isinstance(a1.generators[0].target, ast.Name):
             hv = a1.generators[0].target.id
             lst = U(a1.generators[0].iter)
-            if U(a1.elt) == f"{hv}.n_thetas" and U(a0).replace(" ", "") in (f"np.arange(len({lst}))", f"np.arange(len({lst}),dtype=int)"):
+            # len([f(x) for x in L]) is len(L)
+            a0n = a0
+            if isinstance(a0n, ast.Call) and call_name(a0n) == "np.arange" and a0n.args and isinstance(a0n.args[0], ast.Call) and call_name(a0n.args[0]) == "len" and a0n.args[0].args:
+                inner_ = inline(a0n.args[0].args[0], env)
+                if isinstance(inner_, (ast.ListComp, ast.GeneratorExp)) and len(inner_.generators) == 1 and not inner_.generators[0].ifs:
+                    import copy as _cp
+                    a0n = _cp.deepcopy(a0n)
+                    a0n.args[0].args[0] = inner_.generators[0].iter
+                a0n_txt = U(a0n).replace(" ", "")
+            else:
+                a0n_txt = U(a0).replace(" ", "")
+            lst_forms = {lst, U(inline(a1.generators[0].iter, env))}
+            if U(a1.elt) == f"{hv}.n_thetas" and any(a0n_txt in (f"np.arange(len({l_}))".replace(" ", ""), f"np.arange(len({l_}),dtype=int)".replace(" ", "")) for l_ in lst_forms):
+                # the list enumerated may be named or written in place
+                for l_ in lst_forms:
+                    if l_ == listvar or l_.replace(" ", "") == U(inline(parse_expr(listvar), env)).replace(" ", ""):
+                        return "ok"
                 return over(lst, False)
         while isinstance(a1, ast.Call) and call_name(a1) in ("int", "np.array", "np.asarray") and a1.args:
             a1 = inline(a1.args[0], env)
         if (isinstance(a1, ast.BinOp) and isinstance(a1.op, (ast.Div, ast.FloorDiv))) or isinstance(a1, (ast.Attribute, ast.Constant)):
             return f"every chain label is repeated the same number of times (`{U(a1)[:60]}`): chains of different lengths are mislabelled"
         return None
+    # positions divided by ONE length: np.arange(total) // n  labels equal-sized blocks
+    if isinstance(e, ast.BinOp) and isinstance(e.op, ast.FloorDiv) and isinstance(inline(e.left, env), ast.Call) and call_name(inline(e.left, env)) == "np.arange":
+        return (f"chain labels are positions divided by one length (`{U(e)[:70]}`): every chain is assumed to have as many samples as that, "
+                f"chains of different lengths are mislabelled")
     # loop-extend into a list that starts empty
     base = None
     if isinstance(e, ast.Name):
